@@ -3,6 +3,7 @@ C02 — string and bytes literals are reproduced exactly, however they are split
 -/
 import PP.Proofs.StrLines
 import PP.Model.StrDoc
+import PP.Proofs.RoundTrip
 namespace PP.C02
 open PP PyStr
 
@@ -47,5 +48,31 @@ theorem lines_count (isBytes slash : Bool) (maxLen : Nat) (hpos : 0 < maxLen) (q
     have := ih (fun x hx => hn x (by simp [hx]))
     simp only [List.flatten_cons, List.length_append, List.length_cons]
     omega
+
+/-- **C02.escape_is_repr** — escape_str_for_quote(q, s) (repr, then the two replace chains if repr chose the other quote)
+is exactly repr's escaping carried out with quote `q`, for `str` and `bytes` and every value -/
+theorem escape_is_repr (isBytes : Bool) (q : Nat) (hq : q = SQ ∨ q = DQ) (s : PS) :
+    escapeForQuote isBytes q s = reprBody isBytes q s := escapeForQuote_eq isBytes q hq s
+
+/-- **C02.unescape_escape** — the escaped body, decoded as a Python literal quoted with `q`, is the original value:
+no character is lost, duplicated or altered, whichever quote is forced on the piece -/
+theorem unescape_escape (isBytes : Bool) (q : Nat) (hq : q = SQ ∨ q = DQ) (s : PS)
+    (hw : ∀ c ∈ s, c.cp < (if isBytes then 256 else 1114112)) :
+    unescape q (escapeForQuote isBytes q s) = some (cps s) := PyStr.unescape_escape isBytes q hq s hw
+
+/-- pieces of a split string decode, piece by piece, to the original value: the concatenation of the decoded pieces
+is the value (join theorem + per-piece round trip) -/
+theorem pieces_decode (isBytes slash : Bool) (maxLen : Nat) (hpos : 0 < maxLen) (q : Nat) (hq : q = SQ ∨ q = DQ) (s : PS)
+    (hw : ∀ c ∈ s, c.cp < (if isBytes then 256 else 1114112)) :
+    ((strToLines isBytes slash maxLen hpos q s).map fun l => unescape q (escapeForQuote isBytes q l)) =
+      (strToLines isBytes slash maxLen hpos q s).map fun l => some (cps l) := by
+  apply List.map_congr_left
+  intro l hl
+  apply PyStr.unescape_escape isBytes q hq l
+  intro c hc
+  apply hw c
+  have hj := lines_join isBytes slash maxLen hpos q s
+  rw [← hj]
+  exact List.mem_flatten.mpr ⟨l, hl, hc⟩
 
 end PP.C02
